@@ -60,7 +60,7 @@ def required_cells(tier):
     cells += ['depth:1', 'depth:2', 'depth:3', 'nothing-ran:comment-only', 'nothing-ran:skip-block',
               'nothing-ran:google-no-prompts', 'nothing-ran:bare-prompt', 'no-want-at-all', 'blankline-want:A', 'blankline-want:B', 'ok:I', 'stale-after-ignored-want',
               'stale-from-before-the-ignored-statement', 'ok:want-repeats-printed-markerout',
-              'ok:want-repeats-printed-markermid']
+              'ok:want-repeats-printed-markermid', 'value-then-comment-line-then-want']
     cells += ['escape:' + k for k, _ in ESCAPES]
     return cells
 
@@ -68,7 +68,7 @@ def required_cells(tier):
 KINDS = ['emit', 'emit', 'twice', 'twice', 'val', 'pv', 'pv', 'assign', 'for', 'multi', 'valml', 'semi', 'semival', 'quiet',
          'blankout', 'wsout', 'emitblank', 'pvblank', 'aval', 'apv', 'acomp', 'coro_obj', 'noeol', 'noeol', 'assignprint', 'assignprint',
          'strval1', 'dictval1', 'bytesval', 'printq1', 'pvsemi_str', 'pvsemi_comment', 'valsemi_str', 'dotsout', 'dotsout',
-         'markerout', 'markermid']
+         'markerout', 'markermid', 'valcomment_ps1', 'valcomment_ps1']
 
 
 def out_to_want(text):
@@ -142,6 +142,9 @@ def gen_program(rng):
         elif kind == 'coro_obj':
             # the value is a coroutine object that nobody awaits: its body must not run
             S.append(St(['quiet(%d) or acoro(%d)' % (k, k)], kind, k, is_expr=True))
+        elif kind == 'valcomment_ps1':
+            # a comment line (written with the primary prompt) between the final expression and its want: not a statement
+            S.append(St(['val(%d)' % k, '# about the value'], kind, k, is_expr=True))
         elif kind == 'markerout':
             # the program prints the very characters of the blank-line marker, as a line of its own / inside a line
             S.append(St(['print("<BLANKLINE>", end=quiet(%d) or "\\n")' % k], kind, k, is_expr=True))
@@ -209,6 +212,10 @@ def plan_wants(rng, S, ref, corrupt):
         if st.is_expr and r is not None:
             opts.append(('C', [r]))
         opts = [(t, w) for t, w in opts if gp.want_is_layoutable(w)]
+        if corrupt and st.kind == 'valcomment_ps1':
+            # (finding F55 makes the correct repr want of such a statement fail: in the doctests that carry a corrupted want
+            # it is left out, so that what is observed there is the corruption alone)
+            opts = [(t, w) for t, w in opts if t != 'C']
         # a printed line that spells the marker next to a really empty line: the want syntax cannot tell them apart
         # (the standard module cannot either)
         if marker_ambiguous(acc):
@@ -313,6 +320,8 @@ def render(rng, S, wants, seps, base_indent=0, google=False):
     lines = []
     for idx, st in enumerate(S):
         style = rng.choice(['all_ps1', 'ps2', 'ps2'])
+        if st.kind == 'valcomment_ps1':
+            style = 'all_ps1'
         for li, ln in enumerate(st.lines):
             pre = '>>> ' if (li == 0 or style == 'all_ps1') else '... '
             lines.append(pre + ln)
@@ -370,9 +379,16 @@ def check_case(ctx, index, case_seed):
         if not s['passed']:
             ei = s['exc_info']
             fp = getattr(dt, 'failed_part', None)
+            # finding F55 by mechanism: the failing want is the repr of the value of an expression that is followed by a
+            # comment line written with the primary prompt
+            fw = getattr(fp, 'want', None)
+            behind_comment = any(S[pi].kind == 'valcomment_ps1' and tag == 'C' and '\n'.join(wants[pi]) == fw
+                                 for pi, tag, _ in placed)
             bad('false-fail', 'all wants are correct (forms %s) but the doctest reports %s: %r; failing want %r' % (
                 [t for _, t, _ in placed], harness.outcome(s), ei[1] if ei else None,
-                getattr(fp, 'want', None)), forms=[t for _, t, _ in placed])
+                fw), forms=[t for _, t, _ in placed], value_then_comment_line=behind_comment)
+            if behind_comment:
+                ctx.cell('value-then-comment-line-then-want')
             return
         if rec.T != ref.T:
             bad('trace', 'passed, but the event log %r differs from the reference %r' % (rec.T, ref.T))
@@ -403,8 +419,11 @@ def check_case(ctx, index, case_seed):
             return
         fp = dt.failed_part
         if getattr(fp, 'want', None) != expect_fail['want']:
+            fw = getattr(fp, 'want', None)
+            behind_comment = any(S[pi].kind == 'valcomment_ps1' and tg == 'C' and pi != k and '\n'.join(wants[pi]) == fw
+                                 for pi, tg, _ in placed)
             bad('wrong-attribution', 'failure attributed to want %r instead of the corrupted want %r' % (
-                getattr(fp, 'want', None), expect_fail['want']))
+                fw, expect_fail['want']), value_then_comment_line=behind_comment)
             return
         exp_T = ref.T[:ref.traces[k]]
         if rec.T != exp_T:
@@ -537,6 +556,8 @@ def replay(case, ctx):
 
 
 def classify(v):
+    if v.get('mechanism') in ('false-fail', 'wrong-attribution') and v.get('value_then_comment_line'):
+        return 'comment-line-between-value-and-want'
     return None
 
 
